@@ -170,6 +170,27 @@ func ExecuteC17(t *testing.T, plan *Plan) *RunResult {
 		if c.Multi == "swapped" {
 			servedArchive = otherArchive
 		}
+		if c.Multi == "two-blocks" {
+			// a block signed by an UNTRUSTED key that vouches for other bytes, followed by the genuine block: the file as a
+			// whole proves nothing about the served bytes
+			_, genuine := signedChart("mychart0", who)
+			if block, _ := clearsign.Decode(genuine); block != nil {
+				osum := sha256.Sum256(otherArchive)
+				asum := sha256.Sum256(archive)
+				forgedBody := bytes.Replace(block.Plaintext, []byte(hex.EncodeToString(asum[:])), []byte(hex.EncodeToString(osum[:])), 1)
+				forger := testKeys().other
+				if who == "other" {
+					forger = testKeys().signer
+				}
+				var out bytes.Buffer
+				if w, err := clearsign.Encode(&out, forger.PrivateKey, nil); err == nil {
+					w.Write(forgedBody)
+					w.Close()
+					prov = append(append(out.Bytes(), '\n'), genuine...)
+					servedArchive = otherArchive
+				}
+			}
+		}
 	}
 	keyring := filepath.Join(dir, "pubring.gpg")
 	writeKeyring(keyring, c.Keyring)
@@ -259,7 +280,7 @@ func ExecuteC17(t *testing.T, plan *Plan) *RunResult {
 	sum := sha256.Sum256(archive)
 	wantHash := "sha256:" + hex.EncodeToString(sum[:])
 	trusted := (who == "signer" && (c.Keyring == "signer" || c.Keyring == "signer+other")) || (who == "other" && (c.Keyring == "other" || c.Keyring == "signer+other"))
-	intact := c.Target == "" && !c.Rename && !c.SwapProv && c.Multi != "swapped"
+	intact := c.Target == "" && !c.Rename && !c.SwapProv && c.Multi != "swapped" && c.Multi != "two-blocks"
 	accepted := opErr == nil && panicked == ""
 	if panicked != "" {
 		violate("no-panic", cause, "verification panicked: "+trunc(panicked, 300))
@@ -395,12 +416,18 @@ func genC17(seed, index uint64, tier string) *Plan {
 		c.Strategy = "ifpossible"
 	}
 	if c.Target == "" && !c.Rename && !c.SwapProv && g.Chance(0.3) {
-		c.Multi = g.Pick("listed", "swapped", "swapped")
+		c.Multi = g.Pick("listed", "swapped", "swapped", "two-blocks", "two-blocks")
+		if c.Multi == "two-blocks" {
+			c.Keyring, c.SignerWho = "signer", "signer" // the first block's key must be one the keyring does not hold
+		}
 	}
 	if g.Chance(0.25) {
 		c.Rekey = g.Pick("signer", "other", "empty", "signer+other")
 	} else if g.Chance(0.15) {
 		c.ReadError = true
+	}
+	if c.Multi == "two-blocks" {
+		c.Rekey = "" // (granting trust to the first block's key afterwards would make the file genuine)
 	}
 	p.Net = &NetSpec{Path: "c17", C17: c}
 	p.Variant = "c17"
